@@ -58,6 +58,8 @@ pub enum How {
     FailLong,
     FailPtype,
     ExtFailSmall,
+    ExtFailLong,
+    ExtFailHuge,
 }
 
 #[derive(Clone, Debug, PartialEq, Eq)]
@@ -154,6 +156,15 @@ impl System for ASys {
                     How::ExtFailSmall => {
                         let mut b = vec![0u8; 4];
                         (do_encap_ext(&mut n.enc, &PDU_C, 0, 0x0800, l, &mut b, &ext), b, &PDU_C, 0)
+                    }
+                    How::ExtFailLong => {
+                        let mut b = vec![0u8; 64];
+                        (do_encap_ext(&mut n.enc, &self.long_pdu, 0, 0x0800, l, &mut b, &ext), b, &PDU_C, 0)
+                    }
+                    How::ExtFailHuge => {
+                        let mut b = vec![0u8; 4300];
+                        let huge = vec![(0x0013u16, vec![0x7E; 4100])];
+                        (do_encap_ext(&mut n.enc, &PDU_C, 0, 0x0800, l, &mut b, &huge), b, &PDU_C, 0)
                     }
                 };
                 acc.outcome(&format!("send:{:?}:{}", how, out.class()).replace("(0)", "").replace("(1)", ""));
@@ -334,6 +345,11 @@ fn b_alphabet() -> Vec<(String, Vec<u8>)> {
     let mut d = Desc::complete(L6B, 0x0800, &[]);
     d.gse_len = Some(3);
     v.push(("complete-6B-bad-gse-len".into(), d.print()));
+    v.push(("first-id0-6B-bad-total".into(), Desc::first(L6B, 0x0800, 0, 1, &x[..2]).print()));
+    v.push(("first-id1-3A-oversize".into(), Desc::first(L3A, 0x0800, 1, 40, &[0x07; 20]).print()));
+    let mut d = Desc::first(L6B, 0x0033, 1, 12, &x[..1]);
+    d.ext_bytes = vec![];
+    v.push(("first-id1-6B-unknown-mandatory-ext".into(), d.print()));
     v.push(("one-byte".into(), vec![0xC0]));
     v.push(("padding".into(), vec![0, 0, 0]));
     v
@@ -463,7 +479,7 @@ impl System for BSys {
 pub fn a_sys(thorough: bool) -> ASys {
     ASys {
         labels: vec![L6A, L6B, L3A, Lbl::Bcast, Lbl::ReUse],
-        hows: vec![How::Complete, How::ExtComplete, How::FragOn(0), How::FragOn(1), How::ExtFragOn(0), How::FailSmall, How::FailLong, How::FailPtype, How::ExtFailSmall],
+        hows: vec![How::Complete, How::ExtComplete, How::FragOn(0), How::FragOn(1), How::ExtFragOn(0), How::FailSmall, How::FailLong, How::FailPtype, How::ExtFailSmall, How::ExtFailLong, How::ExtFailHuge],
         maxes: if thorough { vec![1, 2, 3] } else { vec![1, 2] },
         long_pdu: vec![0x22u8; 65536],
     }
@@ -475,7 +491,7 @@ pub fn b_sys() -> BSys {
 
 pub fn run(tier: Tier) -> i32 {
     let rep = Report::new("C04", tier);
-    rep.set_rule("A: closure of the product real Encapsulator x real Decapsulator (lock-step, every successfully produced packet fed at once) under send(label in {two 6-byte, 3-byte, broadcast, explicit re-use} x how in {complete, complete via encap_ext, first fragment on id 0/1 via encap and encap_ext, fail: small buffer / PDU too long / protocol type, encap_ext fail}), zero label, continue(id) (end fragment of an open train), reset of both sides, disable, enable, enable-with-max(1,2); ghost = label intended per PDU and what the wire carried; B: closure of the receiver alone under 30 packets, with two and with one storage buffer (so that start packets are also rejected for lack of storage), (complete and first fragments of every label kind incl. re-use, continuation packets of known/unknown ids, rejected and malformed start packets, padding) and reset; oracle: a resolved re-use label equals the label of the nearest preceding start/complete packet of the frame. distinct = (op, outcome)");
+    rep.set_rule("A: closure of the product real Encapsulator x real Decapsulator (lock-step, every successfully produced packet fed at once) under send(label in {two 6-byte, 3-byte, broadcast, explicit re-use} x how in {complete, complete via encap_ext, first fragment on id 0/1 via encap and encap_ext, fail: small buffer / PDU too long / protocol type, encap_ext fail}), zero label, continue(id) (end fragment of an open train), reset of both sides, disable, enable, enable-with-max(1,2); ghost = label intended per PDU and what the wire carried; B: closure of the receiver alone under 33 packets, with two and with one storage buffer (so that start packets are also rejected for lack of storage), (complete and first fragments of every label kind incl. re-use, continuation packets of known/unknown ids, rejected and malformed start packets, padding) and reset; oracle: a resolved re-use label equals the label of the nearest preceding start/complete packet of the frame. distinct = (op, outcome)");
     rep.assume("A: both label memories are reset at the same points; receiver storage is kept sufficient by re-provisioning delivered buffers; trains have 2 fragments");
     rep.assume("B: a start/complete packet whose label cannot be read (truncated, malformed) counts as carrying an unknown label: nothing may be resolved from before it; padding does not end the frame for the oracle (weaker than the crate, which clears its memory)");
     let asys = a_sys(tier.thorough());
